@@ -216,9 +216,26 @@ def run_case(case):
                 t = terms[ln["term"]]
                 sm = SyncManager.IN if ln["dir"] == "in" else SyncManager.OUT
                 if sm not in sg.pdo_assign.get(t, {}):
+                    written = any(l2["term"] == ln["term"]
+                                  and l2["dir"] == "out"
+                                  and l2["role"] == "write" for l2 in links)
+                    if sm is SyncManager.OUT and written:
+                        return fail(
+                            f"terminal {ln['term']} has a variable the "
+                            f"device writes, but the group reserved no "
+                            f"output region for it (regions: "
+                            f"{sorted(k.name for k in sg.pdo_assign.get(t, {}))})",
+                            path)
                     return dict(ok=True, nontrivial=False,
                                 classes=classes + ["region-missing"])
                 pos = sg.pdo_assign[t][sm] + t.posmap[ln["var"]]
+                need = 1 if isinstance(v["size"], int) \
+                    else struct.calcsize("<" + v["size"])
+                if pos + need > len(frame):
+                    return fail(
+                        f"variable {ln['var']}:{v['size']} of terminal "
+                        f"{ln['term']} was placed at {pos}..{pos + need}, "
+                        f"outside the frame of {len(frame)} bytes", path)
                 if ln["role"] == "read":
                     if isinstance(v["size"], int):
                         exp_reads[k] = (exp[pos] >> v["size"]) & 1
@@ -260,7 +277,7 @@ def run_case(case):
                                     fit(ln["value"], var_of(ln)["size"]))
                     dev.update()
                     after = bytes(sg.current_data)
-                    reads = {k: int(getattr(dev, f"r{k}"))
+                    reads = {k: getattr(dev, f"r{k}")
                              for k, ln in enumerate(links)
                              if ln["role"] == "read"}
                 else:
@@ -301,7 +318,12 @@ def run_case(case):
                 v = var_of(links[k])
                 got = reads[k]
                 if isinstance(v["size"], int):
-                    got = int(bool(got))
+                    # a bit reads as False / True (0 / 1), not as its mask
+                    if got not in (0, 1):
+                        return fail(f"link {k} ({links[k]['var']}: bit "
+                                    f"{v['size']}) read {got!r}, a bit "
+                                    f"variable reads as 0 or 1", path)
+                    got = int(got)
                 elif v["size"] == "Q" and got < 0:
                     got += 1 << 64
                 if got != want:
@@ -309,6 +331,10 @@ def run_case(case):
                                 f"via {v['via']}) read {got}, frame holds "
                                 f"{want}", path)
             for a, b in regions:
+                if b > len(frame):
+                    return fail(f"a terminal's region {a}..{b} reaches "
+                                f"beyond the frame of {len(frame)} bytes",
+                                path)
                 if after[a:b] != exp[a:b]:
                     diff = [i for i in range(a, b) if after[i] != exp[i]]
                     return fail(f"region {a}..{b} differs at {diff[:6]}: "
